@@ -163,5 +163,117 @@ READ_DEPS_1 = ["read_uint64", "read_uint32", "read_real_uint64", "read_boolean",
 WRITE_DEPS_1 = ["write_uint64", "write_uint32", "write_real_uint64", "write_boolean", "write_crcs", "write_bytes", "write_byte",
                 "PackInfo.__init__", "PackInfo.write"]
 
+# ------------------------------------------------------------------ stage 2
+C06_STAGE2 = '''
+(* ---- third wave (stage 2): Folder._read / retrieve and UnpackInfo._read / _retrieve_coders_info / retrieve as translated
+   on this run are parse_folder / parse_unpackinfo.  FolderGen.folder_of maps the generated record to the model's (coders
+   are dicts with the four keys, bind pairs are Bond objects; `solid` and the compressor attributes are not in the model).
+   UnpackInfo: equal up to the CLASS of the exception (res_same): at the end of the record the code formats
+   `0x{ord(pid):02x}` into its Bad7zFile message, so at end of input it raises TypeError where the model says Bad7zFile;
+   the branch for an external folder stream (file.seek, "no live example") is not translated: both sides answer
+   EUnsupported there. ---- *)
+Theorem C06_gen_Folder_retrieve_is_parse_folder : forall lim bs, wf_bytes bs = true -> parse_folder lim bs <> Err EFuel ->
+  (do (o, r) <- ArchiveinfoRecords.Folder_retrieve bs; Ok (FolderGen.folder_of o, r)) = parse_folder lim bs.
+Proof. exact FolderGen.gen_Folder_retrieve_eq_model. Qed.
+Print Assumptions C06_gen_Folder_retrieve_is_parse_folder.
+
+Theorem C06_gen_UnpackInfo_retrieve_is_parse_unpackinfo : forall lim bs, wf_bytes bs = true ->
+  parse_unpackinfo lim bs = Err EFuel \\/
+  HeaderGenPrims.res_same
+    (do (o, r) <- ArchiveinfoRecords.UnpackInfo_retrieve bs;
+     Ok (map FolderGen.folder_of (ArchiveinfoRecords.UnpackInfo_folders o), r))
+    (parse_unpackinfo lim bs).
+Proof. exact FolderGen.gen_UnpackInfo_retrieve_model_or. Qed.
+Print Assumptions C06_gen_UnpackInfo_retrieve_is_parse_unpackinfo.
+
+(* whenever the model accepts, the generated reader returns exactly the model's folders and the same rest *)
+Theorem C06_gen_UnpackInfo_retrieve_accepts : forall lim bs fs r, wf_bytes bs = true -> parse_unpackinfo lim bs = Ok (fs, r) ->
+  (do (o, r) <- ArchiveinfoRecords.UnpackInfo_retrieve bs;
+   Ok (map FolderGen.folder_of (ArchiveinfoRecords.UnpackInfo_folders o), r)) = Ok (fs, r).
+Proof. exact FolderGen.gen_UnpackInfo_retrieve_eq_model. Qed.
+Print Assumptions C06_gen_UnpackInfo_retrieve_accepts.
+
+Theorem C06_gen_read_crcs_is_rd_crcs : forall bs count, 0 <= count -> ArchiveinfoRecords.read_crcs bs count = rd_crcs count bs.
+Proof. exact FolderGen.gen_read_crcs_rd_crcs. Qed.
+Print Assumptions C06_gen_read_crcs_is_rd_crcs.
+'''
+
+C07_STAGE2 = '''
+(* ---- third wave (stage 2): Folder.write and UnpackInfo.write (with_crcs = False, the main streams) as translated on this
+   run are write_folder / write_unpackinfo, for every object.  Side condition, exactly: UnpackInfo.write asserts
+   numfolders == len(folders) (the model has no separate count). ---- *)
+Theorem C07_gen_Folder_write_is_write_folder : forall self : ArchiveinfoRecords.Folder,
+  ArchiveinfoRecords.Folder_write self = write_folder (FolderGen.folder_of self).
+Proof. exact FolderGen.gen_Folder_write_eq_model. Qed.
+Print Assumptions C07_gen_Folder_write_is_write_folder.
+
+Theorem C07_gen_UnpackInfo_write_is_write_unpackinfo : forall self : ArchiveinfoRecords.UnpackInfo,
+  ArchiveinfoRecords.UnpackInfo_write self false =
+  if ArchiveinfoRecords.UnpackInfo_numfolders self =? zlen (ArchiveinfoRecords.UnpackInfo_folders self)
+  then write_unpackinfo (map FolderGen.folder_of (ArchiveinfoRecords.UnpackInfo_folders self)) else Err EOther.
+Proof. exact FolderGen.gen_UnpackInfo_write_eq_model. Qed.
+Print Assumptions C07_gen_UnpackInfo_write_is_write_unpackinfo.
+
+(* hence the section theorem over the generated writer *)
+Theorem C07_gen_unpackinfo_strict : forall lim (self : ArchiveinfoRecords.UnpackInfo) bs,
+  let fs := map FolderGen.folder_of (ArchiveinfoRecords.UnpackInfo_folders self) in
+  zlen fs <= lim -> forallb (wfw_folder lim) fs = true -> ArchiveinfoRecords.UnpackInfo_write self false = Ok bs ->
+  exists body, bs = 7 :: body /\\ forall r, s_unpackinfo lim (body ++ r) = Ok (map sem_folder fs, r).
+Proof.
+  intros lim self bs fs Hn Hwf Hw. rewrite FolderGen.gen_UnpackInfo_write_eq_model in Hw.
+  destruct (_ =? _) in Hw; [|discriminate]. exact (s_unpackinfo_wr lim fs bs Hn Hwf Hw).
+Qed.
+Print Assumptions C07_gen_unpackinfo_strict.
+
+Theorem C07_gen_write_crcs_is_wr_list : forall crcs, ArchiveinfoRecords.write_crcs crcs = wr_list (wr_fixed 4) crcs.
+Proof. exact HeaderGenPrims.gen_write_crcs_wr_list. Qed.
+Print Assumptions C07_gen_write_crcs_is_wr_list.
+'''
+
+READ_DEPS_2 = ["Coder", "Bond.__init__", "Folder.__init__", "Folder._read", "Folder.retrieve", "UnpackInfo.__init__",
+               "UnpackInfo._retrieve_coders_info", "UnpackInfo._read", "UnpackInfo.retrieve"]
+WRITE_DEPS_2 = ["Coder", "Bond.__init__", "Folder.__init__", "Folder.is_simple", "Folder.write", "UnpackInfo.__init__", "UnpackInfo.write"]
+
+
+def add_gen_deps(rel, deps):
+    import re
+    p = os.path.join(ROOT, rel)
+    s = open(p).read()
+    m = re.search(r"\nGEN_DEPS = \[(.*?)\]", s, re.S)
+    assert m, rel
+    old = [x.strip().strip('"') for x in m.group(1).split(",") if x.strip()]
+    new = old + [d for d in deps if d not in old]
+    if new == old:
+        return False
+    s = s[:m.start()] + "\nGEN_DEPS = [" + ", ".join('"%s"' % d for d in new) + "]" + s[m.end():]
+    open(p, "w").write(s)
+    return True
+
+
+def add_require(rel, anchor, line):
+    p = os.path.join(ROOT, rel)
+    s = open(p).read()
+    if line in s:
+        return
+    assert s.count(anchor) == 1, (rel, anchor)
+    open(p, "w").write(s.replace(anchor, anchor + line))
+
+
+def stage2():
+    done = []
+    add_require("coq/props/C06.v", "From P7 Require PackInfoGen.\n", "From P7 Require HeaderGenPrims FolderGen.\n")
+    add_require("coq/props/C07.v", "From P7 Require PackInfoGen.\n", "From P7 Require HeaderGenPrims FolderGen.\n")
+    if patch("coq/props/C06.v", "C06_gen_Folder_retrieve_is_parse_folder", [], C06_STAGE2):
+        done.append("props/C06.v")
+    if patch("coq/props/C07.v", "C07_gen_Folder_write_is_write_folder", [], C07_STAGE2):
+        done.append("props/C07.v")
+    if add_gen_deps("tools/harness/c06.py", READ_DEPS_2):
+        done.append("tools/harness/c06.py")
+    if add_gen_deps("tools/harness/c07.py", WRITE_DEPS_2):
+        done.append("tools/harness/c07.py")
+    return done
+
+
 if __name__ == "__main__":
     print("stage 1:", stage1())
+    print("stage 2:", stage2())
